@@ -131,6 +131,9 @@ def shard(i, n, args):
     for k, w in pre.get("fails", []):
         fail(k, w)
     res["evolved_model_vectors_judged"] = pre["judged"]
+    from .jschema import SecondOpinion
+
+    so = SecondOpinion(mm)
     names = sorted(env)
     mine = {c for x, c in enumerate(names) if x % n == i}
     frac = 1.0
@@ -163,6 +166,10 @@ def shard(i, n, args):
         kind, method, t = env[cls]
         v = mm.valid(j, t, strict=True)
         res["judged"] += 1
+        if res["judged"] % 8 == 0:  # oracle guard: independent JSON-Schema opinion
+            res["second_opinion"] = res.get("second_opinion", 0) + 1
+            if so.valid(j, t) is not v:
+                res.setdefault("second_opinion_disagreements", []).append({"name": fname, "mm": v})
         if v is not label:
             fail("label %s but content is %s|%s" % (label, "valid" if v else "invalid", kind), {"name": fname, "content": j})
         if label:
@@ -200,6 +207,9 @@ def main(tier):
         rep.merge_failures(r["failures"])
         classes.update(r["classes"])
         samples += r["samples"][:1]
+    dis = [d for r in results for d in r.get("second_opinion_disagreements", [])]
+    if dis:
+        rep.inconc("oracle self-disagreement (mm.valid vs derived JSON-Schema) on %d vectors, e.g. %s" % (len(dis), dis[0]))
     judged = sum(r["judged"] for r in results)
     if not judged:
         rep.inconc("no vector judged")
@@ -215,6 +225,8 @@ def main(tier):
         "false_vectors": sum(r["false"] for r in results),
         "true_vectors_accepted_by_converter": sum(r["accepted_true"] for r in results),
         "message_classes": len(classes),
+        "oracle_second_opinions_json_schema": sum(r.get("second_opinion", 0) for r in results),
+        "oracle_disagreements": len(dis),
         "evolved_model_vectors_judged_first_in_same_process": sum(r.get("evolved_model_vectors_judged", 0) for r in results),
         "generation_seconds_per_process": [r["gen_s"] for r in results][:4],
         "exhaustive": True,
